@@ -2,6 +2,7 @@ import Driver.Util
 import Driver.Env
 import Driver.Cb
 import Driver.Views
+import Driver.Emu
 /-
 Line-protocol driver: one case per line, first token selects the engine, one reply line per case.
 Stateless across lines (a line is a complete case = a replay).  Core-only imports so that it links.
@@ -15,6 +16,9 @@ def dispatch (env : Env) (eng rest : String) : String :=
   | "cb" => Cb.run env.rw rest
   | "vp" => Views.runVP rest
   | "box" => Views.runBox rest
+  | "emu" => Emu.run env rest
+  | "emucheck" => Emu.runCheck env rest
+  | "emusame" => Emu.runSame env rest
   | _ => "bad-engine"
 
 def handle (env : Env) (line : String) : String :=
